@@ -424,9 +424,9 @@ def decide(make, h, name, k, build, stats, init="free", max_prefix=6, twin=None,
     prefixes = [0] if init == "reset" else list(range(0, max_prefix + 1 + EXTRA_PREFIX)) + \
         [p_ for p_ in LONG_PREFIXES if p_ > max_prefix + EXTRA_PREFIX]
     undecided = 0
-    t_root = time.time()
+    t_root = time.process_time()          # CPU time of this process: the budget must not depend on how busy the machine is
     for p in prefixes:
-        if p > max_prefix and time.time() - t_root > ROOT_BUDGET_S:
+        if p > max_prefix and time.process_time() - t_root > ROOT_BUDGET_S:
             break
         if init == "reset":
             rframes, rcons, rmodel = frames, cons, model
